@@ -2,9 +2,10 @@
    every arithmetic operation generated from math/src/field/f128/mod.rs (Gen/F128.v) agrees with
    integer arithmetic modulo M for ALL operands, and none of its checked + - * overflows (`_ok`).
    Only statements, `exact` of lemmas proved in Proofs/F128*.v, and Print Assumptions. *)
+From Coq Require Import Znumtheory.
 From VBase Require Import MachInt.
 From VGen Require Import F128.
-From VProofs Require Import F128Limbs F128Ops.
+From VProofs Require Import F128Limbs F128Ops F128Inv.
 Open Scope Z_scope.
 
 (* ---- limb helpers (a triple (z0,z1,z2) denotes z0 + z1*2^64 + z2*2^128) ---- *)
@@ -54,6 +55,26 @@ Theorem C07_f128_sub_192x192_ok : forall a0 a1 a2 b0 b1 b2,
 Proof. exact sub_192x192_ok_spec. Qed.
 Print Assumptions C07_f128_sub_192x192_ok.
 
+Theorem C07_f128_add_192x192_exact : forall a0 a1 a2 b0 b1 b2,
+  0 <= a0 < 2^64 -> 0 <= a1 < 2^64 -> 0 <= a2 < 2^64 ->
+  0 <= b0 < 2^64 -> 0 <= b1 < 2^64 -> 0 <= b2 < 2^64 ->
+  (a0 + a1 * 2^64 + a2 * 2^128) + (b0 + b1 * 2^64 + b2 * 2^128) < 2^192 ->
+  let '(r0, r1, r2) := f128_add_192x192 a0 a1 a2 b0 b1 b2 in
+  0 <= r0 < 2^64 /\ 0 <= r1 < 2^64 /\ 0 <= r2 < 2^64 /\
+  r0 + r1 * 2^64 + r2 * 2^128 = (a0 + a1 * 2^64 + a2 * 2^128) + (b0 + b1 * 2^64 + b2 * 2^128).
+Proof. exact add_192x192_exact. Qed.
+Print Assumptions C07_f128_add_192x192_exact.
+
+Theorem C07_f128_sub_192x192_exact : forall a0 a1 a2 b0 b1 b2,
+  0 <= a0 < 2^64 -> 0 <= a1 < 2^64 -> 0 <= a2 < 2^64 ->
+  0 <= b0 < 2^64 -> 0 <= b1 < 2^64 -> 0 <= b2 < 2^64 ->
+  b0 + b1 * 2^64 + b2 * 2^128 <= a0 + a1 * 2^64 + a2 * 2^128 ->
+  let '(r0, r1, r2) := f128_sub_192x192 a0 a1 a2 b0 b1 b2 in
+  0 <= r0 < 2^64 /\ 0 <= r1 < 2^64 /\ 0 <= r2 < 2^64 /\
+  r0 + r1 * 2^64 + r2 * 2^128 = (a0 + a1 * 2^64 + a2 * 2^128) - (b0 + b1 * 2^64 + b2 * 2^128).
+Proof. exact sub_192x192_exact. Qed.
+Print Assumptions C07_f128_sub_192x192_exact.
+
 Theorem C07_f128_sub_modulus : forall lo hi, 0 <= lo < 2^64 -> 0 <= hi < 2^64 ->
   let '(r0, r1) := f128_sub_modulus lo hi in
   0 <= r0 < 2^64 /\ 0 <= r1 < 2^64 /\ r0 + r1 * 2^64 = (lo + hi * 2^64 - M) mod 2^128.
@@ -101,6 +122,10 @@ Print Assumptions C07_f128_mul.
 Theorem C07_f128_mul_ok : forall a b, repr128 a -> repr128 b -> f128_mul_ok a b = true.
 Proof. exact f128_mul_ok_spec. Qed.
 Print Assumptions C07_f128_mul_ok.
+
+Theorem C07_f128_mul_repr : forall a b, repr128 a -> repr128 b -> repr128 (f128_mul a b).
+Proof. exact f128_mul_repr. Qed.
+Print Assumptions C07_f128_mul_repr.
 
 Theorem C07_f128_add : forall a b, repr128 a -> repr128 b -> f128_add a b = (a + b) mod M.
 Proof. exact f128_add_spec. Qed.
@@ -198,3 +223,65 @@ Theorem C07_f128_root_order_exact :
   f128_G ^ (2^40) mod M = 1 /\ forall k, 0 < k < 2^40 -> f128_G ^ k mod M <> 1.
 Proof. exact f128_root_order_exact. Qed.
 Print Assumptions C07_f128_root_order_exact.
+
+(* ---- inversion (binary extended GCD on 192-bit limb triples) and division.
+   Partial correctness holds for every fuel without any hypothesis.  Termination (fuel >= 192 for every
+   nested loop) is proved under gcd(x, M) = 1, which is what primality of M (proved separately, not
+   imported here) gives for every 0 < x < M: if gcd(x, M) > 1 the Rust loop `while v & 1 == 0` would
+   spin on v = 0. ---- *)
+Theorem C07_f128_inv_sound_partial : forall fuel x r, repr128 x -> f128_fn_inv fuel x = Some r ->
+  repr128 r /\ (r * x) mod M = (if x =? 0 then 0 else 1).
+Proof. exact f128_inv_sound_partial. Qed.
+Print Assumptions C07_f128_inv_sound_partial.
+
+Theorem C07_f128_inv_method_sound_partial : forall fuel x r, repr128 x -> f128_inv fuel x = Some r ->
+  repr128 r /\ (r * x) mod M = (if x =? 0 then 0 else 1).
+Proof. exact f128_inv_sound_partial'. Qed.
+Print Assumptions C07_f128_inv_method_sound_partial.
+
+Theorem C07_f128_inv_zero : forall fuel, f128_inv fuel 0 = Some 0.
+Proof. exact f128_inv_zero. Qed.
+Print Assumptions C07_f128_inv_zero.
+
+Theorem C07_f128_div_sound_partial : forall fuel a b r, repr128 a -> repr128 b -> f128_div fuel a b = Some r ->
+  repr128 r /\ (b <> 0 -> (r * b) mod M = a) /\ (b = 0 -> r = 0).
+Proof. exact f128_div_sound_partial. Qed.
+Print Assumptions C07_f128_div_sound_partial.
+
+Theorem C07_f128_inv_total : forall fuel x, repr128 x -> (x <> 0 -> Z.gcd x M = 1) -> (192 <= fuel)%nat ->
+  exists r, f128_fn_inv fuel x = Some r /\ repr128 r /\ (r * x) mod M = (if x =? 0 then 0 else 1).
+Proof. exact f128_inv_total. Qed.
+Print Assumptions C07_f128_inv_total.
+
+Theorem C07_f128_div_total : forall fuel a b, repr128 a -> repr128 b -> (b <> 0 -> Z.gcd b M = 1) ->
+  (192 <= fuel)%nat ->
+  exists r, f128_div fuel a b = Some r /\ repr128 r /\ (b <> 0 -> (r * b) mod M = a) /\ (b = 0 -> r = 0).
+Proof. exact f128_div_total. Qed.
+Print Assumptions C07_f128_div_total.
+
+(* the same with primality of M as the only hypothesis (to be discharged by the primality proof of M) *)
+Theorem C07_f128_inv_total_prime : prime M -> forall fuel x, repr128 x -> (192 <= fuel)%nat ->
+  exists r, f128_fn_inv fuel x = Some r /\ repr128 r /\ (r * x) mod M = (if x =? 0 then 0 else 1).
+Proof. exact f128_inv_total_prime. Qed.
+Print Assumptions C07_f128_inv_total_prime.
+
+Theorem C07_f128_div_total_prime : prime M -> forall fuel a b, repr128 a -> repr128 b -> (192 <= fuel)%nat ->
+  exists r, f128_div fuel a b = Some r /\ repr128 r /\ (b <> 0 -> (r * b) mod M = a) /\ (b = 0 -> r = 0).
+Proof. exact f128_div_total_prime. Qed.
+Print Assumptions C07_f128_div_total_prime.
+
+(* non-vacuity: the hypotheses are satisfiable and the generated term runs *)
+Example C07_f128_inv_example : repr128 2 /\ Z.gcd 2 M = 1 /\ f128_fn_inv 192 2 = Some ((M + 1) / 2).
+Proof. exact f128_inv_example. Qed.
+
+(* unconditional total correctness of inversion / division, with primality of the modulus (Proofs/NumTheoryPrime.v) *)
+From VProofs Require Import NumTheoryPrime.
+From VBase Require Import ZpOps.
+Theorem C07_f128_inv_total_unconditional : forall fuel x, repr128 x -> (192 <= fuel)%nat ->
+  exists r, f128_fn_inv fuel x = Some r /\ repr128 r /\ (r * x) mod M = (if x =? 0 then 0 else 1).
+Proof. apply f128_inv_total_prime. change M with P128. exact P128_prime. Qed.
+Print Assumptions C07_f128_inv_total_unconditional.
+Theorem C07_f128_div_total_unconditional : forall fuel a b, repr128 a -> repr128 b -> (192 <= fuel)%nat ->
+  exists r, f128_div fuel a b = Some r /\ repr128 r /\ (b <> 0 -> (r * b) mod M = a) /\ (b = 0 -> r = 0).
+Proof. apply f128_div_total_prime. change M with P128. exact P128_prime. Qed.
+Print Assumptions C07_f128_div_total_unconditional.
